@@ -51,6 +51,28 @@ func Content(r *Rand, class string, w, h, c, p, aux int) []int {
 				}
 			}
 		}
+	case "flatnoise":
+		// smooth ramp; every 32-line stripe starts with 6..14 flat lines followed by noisy lines
+		// (detail-band code-blocks that open with all-zero quads and then carry noisy magnitudes)
+		amp := 1 + r.Intn(max/4+1)
+		flat := 6 + r.Intn(9)
+		for y := 0; y < h; y++ {
+			for x := 0; x < w; x++ {
+				for k := 0; k < c; k++ {
+					v := max/4 + (max/2)*x/w
+					if y%32 >= flat {
+						v += r.Intn(2*amp+1) - amp
+					}
+					if v < 0 {
+						v = 0
+					}
+					if v > max {
+						v = max
+					}
+					*at(x, y, k) = v
+				}
+			}
+		}
 	case "blocks8":
 		// every aligned 8x8 cell entirely 0 or entirely MAXVAL (largest legal DC differences
 		// between neighbouring DCT blocks; flat blocks next to saturated ones)
